@@ -349,11 +349,13 @@ def _history(cell, case, ctx):
             numpy.seterr(**cfg["err"])
             numpy.set_printoptions(precision=cfg["precision"])
             nondefault = cfg["warn"] != "default" or any(v != "warn" for v in cfg["err"].values())
+            outcomes = []
             for i, step in enumerate(case["steps"]):
                 before = gsnap()
                 with warnings.catch_warnings(record=False):
                     pass
                 outcome = run_step(step, cell["registered"])
+                outcomes.append(outcome)
                 after = gsnap()
                 ctx.evaluation()
                 d = gdiff(before, after)
@@ -367,10 +369,68 @@ def _history(cell, case, ctx):
                         ctx.nontrivial(key=[cell["id"], i, step.get("op") or step.get("which"), step["h"], cfg], sample={
                             "step": {k: v for k, v in step.items() if k != "elem"}, "outcome": outcome[0], "config": cfg})
                 ctx.stratum(step["kind"] + ":" + outcome[0])
+            # operations are pure functions of their operands: the same calls evaluated again, in the opposite order and
+            # after everything else, give bit-identical outcomes (no result cache, no state carried from call to call)
+            for i in reversed(range(len(case["steps"]))):
+                step = case["steps"][i]
+                again = run_step(step, cell["registered"])
+                ctx.evaluation()
+                if again != outcomes[i]:
+                    name = step.get("op") or step.get("which")
+                    ctx.fail("history_dependent", f"step {i} {step['kind']}:{name} gave {str(outcomes[i])[:160]} in the history and "
+                             f"{str(again)[:160]} when evaluated again afterwards (same operands, same settings)", op=str(name),
+                             variant=step["kind"], backend=be)
+                    return
     finally:
         numpy.seterr(**saved_err)
         numpy.seterrcall(saved_call)
         numpy.set_printoptions(**saved_print)
+    # ... and they do not depend on what the process has computed before: the same calls in a fresh interpreter, in the
+    # opposite order, give the same outcomes (a module-level result cache or a lazily initialised table would show here)
+    if ctx.tier == "thorough" or case["steps"][0]["h"] % 4 == 0:
+        job = json.dumps({"steps": case["steps"], "config": cfg, "registered": cell["registered"]})
+        p = subprocess.run([sys.executable, "-c", FRESH, str(env.SRC), str(env.VERIF)], input=job, capture_output=True, text=True,
+                           env=dict(os.environ, PYTHONHASHSEED="0"))
+        line = [l for l in p.stdout.splitlines() if l.startswith("RESULT ")]
+        if p.returncode != 0 or not line:
+            raise env.HarnessError(f"fresh-interpreter evaluation failed: {p.stderr[-400:]}")
+        fresh = json.loads(line[-1][7:])
+        ctx.evaluation(len(fresh))
+        for i, (a, b) in enumerate(zip(outcomes, fresh)):
+            if repr(a) != b:
+                step = case["steps"][i]
+                name = step.get("op") or step.get("which")
+                ctx.fail("history_dependent", f"step {i} {step['kind']}:{name} gave {repr(a)[:160]} after {i} earlier calls and {b[:160]} in a "
+                         f"fresh interpreter that ran the calls in the opposite order", op=str(name), variant=step["kind"], backend=be)
+                return
+        ctx.note("fresh_interpreter_comparisons")
+
+
+def outcomes_in_config(steps, cfg, registered):
+    """evaluate steps under the configured error/warning/print settings -> list of repr(outcome)"""
+    if registered and not getattr(vector, "_awkward_registered", False):
+        vector.register_awkward()
+    out = []
+    with warnings.catch_warnings():
+        warnings.simplefilter(cfg["warn"])
+        numpy.seterrcall(_Log() if "log" in cfg["err"].values() else _errcall)
+        numpy.seterr(**cfg["err"])
+        numpy.set_printoptions(precision=cfg["precision"])
+        for step in steps:
+            out.append(repr(run_step(step, registered)))
+    return out
+
+
+FRESH = r'''
+import json, sys
+sys.path.insert(0, sys.argv[2])
+from vcheck import env
+env.setup()
+from vcheck.props import c20
+job = json.load(sys.stdin)
+res = c20.outcomes_in_config(job["steps"][::-1], job["config"], job["registered"])[::-1]
+print("RESULT " + json.dumps(res))
+'''
 
 
 def _register(cell, case, ctx):
